@@ -1,6 +1,7 @@
 package main
 
 import (
+	"regexp"
 	"fmt"
 	"go/constant"
 	"go/types"
@@ -67,8 +68,19 @@ func (v Val) String() string {
 }
 
 // typeKey gives a stable readable key for a Go type, used in heap names.
+// predeclared aliases: byte and uint8 (rune and int32) are identical types and
+// must share heap components, type tags and unbox functions
+var aliasByte = regexp.MustCompile(`(^|[^A-Za-z0-9_.])byte($|[^A-Za-z0-9_])`)
+var aliasRune = regexp.MustCompile(`(^|[^A-Za-z0-9_.])rune($|[^A-Za-z0-9_])`)
+
 func typeKey(t types.Type) string {
 	s := types.TypeString(t, func(p *types.Package) string { return p.Name() })
+	for aliasByte.MatchString(s) {
+		s = aliasByte.ReplaceAllString(s, "${1}uint8${2}")
+	}
+	for aliasRune.MatchString(s) {
+		s = aliasRune.ReplaceAllString(s, "${1}int32${2}")
+	}
 	return sanitize(s)
 }
 
